@@ -22,7 +22,7 @@ RULE = ('documents with 1-14 \\index commands scattered between words, paragraph
 TRUSTED = ['modelled, not verified: the collator (pyuca sort_key or the str.lower fallback) as a function ck into integer sequences compared '
            'lexicographically (the order is proved total for the instance; ck itself is a table computed by the collator of the code under test)',
            'modelled, not verified: tex.expandTokens on key tokens -- == of two expanded fragments is taken to be equality of their token '
-           'lists and of their .source strings (hypothesis src_inj); .textContent and .source are tables computed by the harness rules tx/src_toks '
+           'lists and of their .source strings (hypothesis src_inj, needed only among the keys occurring in the document at hand: C18_*_rel); .textContent and .source are tables computed by the harness rules tx/src_toks '
            'for the generated token alphabet, compared with the real strings on every case',
            'modelled, not verified: unidecode(c).upper() (table per case), encoding.stringletters() (passed per case)',
            'sorted() is modelled as a stable insertion sort; C18_stable_sort_unique proves every stable sort by the (strict weak) comparator returns the same list']
@@ -30,6 +30,14 @@ ASSUMPTIONS = ['macros in keys are \\textbf/\\emph/\\textit with a braced argume
                'formats are see{..}, seealso{..}, textbf, emph, textit (a format that leaves \\index-page-number outside a macro argument, '
                'e.g. |( or |), makes IndexUtils.digest raise AttributeError: recorded as an observation, outside the property quantifier)']
 CASE_TIMEOUT = 20
+
+def gen_tables(repo, gen_dir):
+    """Gen/Catcodes.v (shared with C01/C04): C18_default_categories and the C18 x C01 refinement theorems are re-checked against
+    the category table regenerated from the source on every run"""
+    from translate import catcodes
+    d = catcodes.generate(repo, gen_dir)
+    return dict(obligations=0, file='Gen/Catcodes.v (shared with C01)', chain=d['chain'])
+
 
 # ---- tokens ---------------------------------------------------------------------------------------
 # a token is [cat, chars]; escape sequences are [0, name]
